@@ -61,13 +61,23 @@ CFG = {
             "lease expiry and quiescence; the same followed by a later report / prober run / keepalive of another component; and a prober "
             "resolving a fresh probe between another client's enqueue and mark; compared with the call-granularity model (USys) through the "
             "harness' effective events; oracle: Backed on the final keyspace (every port_retry / details_retry mark has a queued probe of "
-            "that goal), failures classified by signature (holder-loss, consumed-before-mark: known findings; anything else: violation)",
+            "that goal), failures classified by signature PER ORPHAN, tied to its own address and goal (holder-loss, consumed-before-mark: known findings; "
+            "any other orphan, or any orphan of a history the model does not reproduce: violation)",
     "assumptions": [
         "a client death or storage fault inside a repository call either precedes the call's single commit (no effect) or follows it (effect, reply lost) — C09/C10; the harness derives which from the trace (an executed MULTI/EXEC)",
         "faults are not injected on UNWATCH (a failed UNWATCH on a connection that stays in use is not a realistic storage fault)",
         "the prober runner is modelled as: PopMany, then one probeserver execution per popped probe, sequentially (worker concurrency is C12/C13's concern)",
     ],
-    "trusted_base": COMMON_TRUSTED,
+    "trusted_base": COMMON_TRUSTED + [
+        "driver-implemented semantics in lean/Swat4/Drv/C16.lean (not Model/ or Spec/ definitions): the oracle `orphans` (svStatuses / queued: a "
+        "port_retry or details_retry bit of an SV dump line without a PI line of that address and goal), and the attribution of an orphan to a known "
+        "finding: `history` (the model USys.stepT replaying the implementation's effective events, recording per event who acted and which queue items "
+        "vanished / appeared), `heldAndLost` (a pop client took a probe of exactly the orphan's address and goal and ended crashed / with a PopMany error / "
+        "with an error outcome at that probe's position of the batch) and `consumedBeforeMark` (a probe of exactly the orphan's address and goal was "
+        "enqueued by one client, that very item popped by another, a prober, before the first client's update committed the mark; also required of the "
+        "implementation's own call completion order). The attribution is used only when model and implementation agree on calls, results and dump; every "
+        "other orphan (other server, other goal, unreproduced history) is reported as orphan-mark = violation",
+    ],
     "manifest": {
         "text": "Lean theorems over the use-case programs (Prog) and a crash/fault-aware run (Prog.runChoices: every call succeeds, fails without "
                 "effect or fails after taking effect; the run stops where the choice list ends = the client died at that call boundary): "
